@@ -270,11 +270,11 @@ class dhcp(packet_base):
         o = b''
         def addPart (k, v):
             o = b''
-            o += chr(k)
-            o += chr(len(v))
+            o += bytes([k])
+            o += bytes([len(v)])
             o += bytes(v)
             if len(o) & 1: # Length is not even
-                o += chr(dhcp.PAD_OPT)
+                o += bytes([dhcp.PAD_OPT])
             return o
 
         for k,v in self.options.items():
@@ -290,7 +290,7 @@ class dhcp(packet_base):
                     o += addPart(k, part)
             else:
                 o += addPart(k, v)
-        o += chr(dhcp.END_OPT)
+        o += bytes([dhcp.END_OPT])
         self._raw_options = o
 
         if isinstance(self.options, util.DirtyDict):
